@@ -20,34 +20,34 @@ TEXT = {
          "MC_Store checks that after a merge destination and source share no node and the source's contents/path/parent are unchanged (TLC refutes the re-parenting deviation that was fixed); Gen_Store replays every history merge -> Set/Remove/Merge on either side and compares every handle, including the aliasing relation computed from pointer identity."),
  "C05": ("norm", "TLA+ normalisation spec (UcfgNormalize): order-free Ideal definition proved equal by TLC to the code-shaped sequential insertion on all conflict-free ordered inputs; all flattenings of all trees; every case replayed in six Go representations; random inputs trace-validated",
          "MC_Normalize checks Confluent/OrderFree/FlattenOK/Idempotent exhaustively (and that the sequential algorithm does accept conflicts, the listed finding); Gen_Normalize emits ordered inputs and tree flattenings; the harness builds each as struct (exact visiting order), generic maps, interface-keyed maps, typed maps/slices/arrays, pointers and nested *Config, compares the unpacked data with the spec's observation and re-feeds it (idempotence)."),
- "C09": ("norm", "TLA+ confluence check (all visiting orders explored by TLC) + replay of every map-built case under K different Go map insertion orders with all outcomes compared, for normalisation and merge",
-         "At the model level TLC explores every insertion order (every ordered input is a state) and checks that the outcome is the order-free one; on the code every case built from Go maps is executed 8 (quick) / 32 (thorough) times with rebuilt maps, and all outcomes must equal the specification's single outcome, or lie in the listed deviation's outcome set for conflicting inputs."),
+ "C09": ("norm", "TLA+ confluence check (all visiting orders explored by TLC) + replay of every map-built case under K different Go map insertion orders with all outcomes compared, for normalisation and merge; worlds of mutually referencing settings (Gen_VarExp) created and unpacked repeatedly, one outcome demanded and compared with the TLA+ evaluator",
+         "At the model level TLC explores every insertion order (every ordered input is a state) and checks that the outcome is the order-free one; on the code every case built from Go maps is executed 8 (quick) / 32 (thorough) times with rebuilt maps, and all outcomes must equal the specification's single outcome, or lie in the listed deviation's outcome set for conflicting inputs. Settings that reference each other: every world of Gen_VarExp is created and unpacked as a whole 13 (33) times; the per-call cache and the active set are shared between the fields, which the runtime visits in a fresh order each time; exactly one outcome is accepted and it must be the one UcfgVarExp computes per setting (this stage found and led to the repair of KF-33 and KF-34)."),
  "C20": ("paths", "TLA+ index-vs-name rule (UcfgPaths) checked by TLC over a spelling table x MaxIdx x EnableNumKeys x position; exhaustive replay as map key / struct tag / setter name with read-back; random literals trace-validated",
          "The rule 'index iff integer literal and 0<=n<=MaxIdx and not a single numeric key under EnableNumKeys' is the specification's; TLC checks the allocation bound and name round-trip on the whole table; every combination is replayed three ways on the code and the resulting structure, getter/Has/Remove read-back and list length are compared; random literals in every Go syntax are validated by TLC."),
- "C17": ("parse", "TLA+ transcription of the recursive-descent value parser (UcfgParseValue) over character sequences: TLC checks Parse(Render(doc)) = doc and totality; exhaustive replay of all short strings under four parser configs + JSON documents; random encoding/json documents trace-validated",
-         "The specification parses the same characters as the code (stop sets, trimming, trailing commas, top-level comma lists, quoting, escapes); every string up to the length bound is replayed under DefaultConfig/EnvConfig/NoopConfig/IgnoreCommas and the value or error/panic outcome compared; JSON documents rendered by the spec (compact, indented) must read back as the data they denote; 5k-100k random documents written by encoding/json are validated by TLC against the same parser."),
+ "C17": ("parse", "TLA+ transcription of the recursive-descent value parser (UcfgParseValue) over character sequences: TLC checks Parse(Render(doc)) = doc and totality; exhaustive replay of all short strings under four parser configs + JSON documents; random encoding/json documents trace-validated; five whitespace layouts (compact, LF, CRLF, tabs, whitespace around every token)",
+         "The specification parses the same characters as the code (stop sets, trimming, trailing commas, top-level comma lists, quoting, escapes); every string up to the length bound is replayed under DefaultConfig/EnvConfig/NoopConfig/IgnoreCommas and the value or error/panic outcome compared; JSON documents rendered by the spec (compact, indented) must read back as the data they denote; 5k-100k random documents written by encoding/json are validated by TLC against the same parser. Documents are rendered in five whitespace layouts covering blank, tab, CR and LF on both sides of every token; recorded results are compared with a kind-directed equality so that a wrongly typed result is a verdict, not a TLC evaluation error."),
  "C19": ("flags", "TLA+ collector state machine (UcfgFlags) composed from the parser, normalisation and merge specifications: TLC checks fold/sticky-error/empty/bare laws; every argument sequence replayed on a real flag.FlagValue; random sequences trace-validated",
          "State = (config, first error); Set(arg) = split at '=', bare key => true, empty value => no-op, malformed => sticky error, else Normalize({key: Parse(value)}) merged with the flag's own policy. Every prefix+argument of the bounded universe is a replayed transition comparing Config() and Error(); random 8-argument sequences are validated by TLC."),
  "C02": ("varexp", "TLA+ evaluator of ${...} expressions (UcfgVarExp: expression AST, lookup layers root/Env/resolvers, operators, stack of active names): TLC lookup-order invariants; exhaustive replay of expression worlds in crash-isolated children; late binding by split merges",
          "The specification evaluates every setting of every world (String, typed read, Has, whole Unpack) with the fixed lookup order and operator table; the harness renders each world to real ${} strings, Env configs and Resolve callbacks and compares text, type and error class (cyclic/missing/custom message); the same worlds are rebuilt by two Merge calls in both orders to decide late binding."),
  "C08": ("varexp", "TLA+ small-step evaluator (UcfgVarExpSteps) checked by TLC for termination under weak fairness + stack bound over all reference graphs; big-step NoFalseCycle invariant; replay of all worlds through Unpack/getters/Has/CountField/Child/FlattenedKeys/CompareConfigs in crash-isolated child processes",
          "Liveness <>(stack = <<>>) and the stack bound hold for every graph of the universe on the Ideal layer and TLC refutes the listed deviation with the one-setting witness; on the code every world's reads run in child processes (4 MB stack, deadline) so 'did not return' is an observation; cyclic errors must appear exactly where the specification says a name is re-entered."),
- "C03": ("conv", "TLA+ decision table for numeric conversions over abstract boundary numbers (UcfgConvert): TLC checks 'no third outcome'; exhaustive replay at every type boundary through five routes with math/big exactness; random bit patterns trace-validated",
-         "The table (negative check on the original value, truncation toward zero, range check on the truncated value, NaN/Inf never into integers or durations, seconds*1e9 must fit int64, text must parse) is checked by TLC to yield only Err or the exact value and to be violated by the two repaired deviations; every (source kind, boundary point, target) is executed on the code and the stored value compared with the exact rational; 20k-500k random values are classified by the driver and validated by TLC."),
+ "C03": ("conv", "TLA+ decision table for numeric conversions over abstract boundary numbers (UcfgConvert): TLC checks 'no third outcome'; exhaustive replay at every type boundary through five routes with math/big exactness; random bit patterns trace-validated; text/bool/string table (Gen_ConvText) whose strconv facts are verified by the harness; typed-setter route",
+         "The table (negative check on the original value, truncation toward zero, range check on the truncated value, NaN/Inf never into integers or durations, seconds*1e9 must fit int64, text must parse) is checked by TLC to yield only Err or the exact value and to be violated by the two repaired deviations; every (source kind, boundary point, target) is executed on the code and the stored value compared with the exact rational; 20k-500k random values are classified by the driver and validated by TLC. Gen_ConvText adds texts in every syntax strconv accepts or rejects, booleans and numbers into bool, string and numeric targets (rule in TLA+, strconv facts in a table the harness re-checks against strconv), and every case also runs with the setting stored by the typed setters, which keep the signed kind."),
  "C04": ("reify", "TLA+ transcription of typed Unpack with validators (UcfgReify) + an INDEPENDENT predicate Valid(result) checked by TLC (UnpackOk => Valid); exhaustive replay of type x validator x default x config",
          "TLC checks on every case of the universe that a successful Unpack yields a value satisfying the declarative validity predicate (stated on the result only) and refutes the repaired deviation; every case is executed on the code with reflect.StructOf targets and outcome, values and error path compared."),
  "C13": ("reify", "TLA+ typed Unpack returning the COMPLETE new field values (frame condition part of every expectation) + Frame invariant; replay with the target inspected after failure (atomicity)",
          "Every expectation lists G, F and H after the call, so untouched fields are compared in every case; failures are injected at G, F and H (H after F was written to the working copy) and the harness requires the struct passed in to hold its previous field values, slice headers, map and pointer identities."),
- "C14": ("reify", "TLA+ typed Unpack whose errors are paths of the offending setting (sets where map order decides) + ErrNamesSetting invariant; replay comparing ucfg.Error, Reason, Class and the quoted path",
-         "The specification's Err(path) is compared with the last quoted path of the real message for faults at every position of the universe (wrong type, unparsable text, failed validator, failing default, failing element of a list or map, nested struct); the error must be a ucfg.Error with non-nil Reason and Class; TLC refutes the two repaired deviations."),
- "C06": ("pack", "TLA+ Pack (typed value -> config tree) and RoundTrip; TLC identity invariant over all well-formed two-field struct types x values; replay with a generic reflect type builder comparing packed tree and round-tripped value",
-         "Gen_Pack enumerates struct types from a descriptor grammar with tags (rename, dotted, inline, ignore) and extreme values; the harness builds the real types with reflect, merges the value into an empty config, compares the generic view with Pack's tree, unpacks into a zero value and compares modulo nil~empty; the listed finding (inline map next to named fields) is modelled as a deviation with its exact outcome."),
+ "C14": ("reify", "TLA+ typed Unpack whose errors are paths of the offending setting (sets where map order decides) + ErrNamesSetting invariant; replay comparing ucfg.Error, Reason, Class and the quoted path; UcfgFaults/Gen_Faults: single-fault injection specification over the Pack type universe (sites x fault kinds), path AND source demanded, Unpack and typed getters",
+         "The specification's Err(path) is compared with the last quoted path of the real message for faults at every position of the universe (wrong type, unparsable text, failed validator, failing default, failing element of a list or map, nested struct); the error must be a ucfg.Error with non-nil Reason and Class; TLC refutes the two repaired deviations. UcfgFaults computes the sites (setting path + receiving Go type) of Pack(t, v) for every (type, value) of the universe and injects one fault of every kind the receiving type admits (conversion, wrong type, out of range, unresolvable reference, wrong list length, custom Unpack failure); the configuration is created with source metadata; Unpack (and the typed getter for primitive sites) must return a ucfg.Error with Reason and Class whose message names exactly the site's dotted path and the source."),
+ "C06": ("pack", "TLA+ Pack (typed value -> config tree) and RoundTrip; TLC identity invariant over all well-formed two-field struct types x values; replay with a generic reflect type builder comparing packed tree and round-tripped value; all numeric kinds x boundaries as field / pointer / slice / array / map element",
+         "Gen_Pack enumerates struct types from a descriptor grammar with tags (rename, dotted, inline, ignore) and extreme values; the harness builds the real types with reflect, merges the value into an empty config, compares the generic view with Pack's tree, unpacks into a zero value and compares modulo nil~empty; the listed finding (inline map next to named fields) is modelled as a deviation with its exact outcome. A second enumeration covers the 12 numeric kinds with their boundary values (extremes, smallest non-zero, infinities, float32 values that are not short decimals) in five positions."),
  "C11": ("readers", "TLA+ readers model (UcfgReaders: N reader processes, per-call cache, interleaved atomic steps) checked by TLC for SharedUnchanged/ResultIsSequential; sequential purity by a name-free deep hash; concurrent goroutines on a fresh config compared with the specification's answers; Go race detector as observer",
          "TLC explores every interleaving of three readers with different resolvers and refutes the 'memo on the shared value' deviation; on the code every read operation must leave a reflective deep hash of the config unchanged, a later read under a different resolver must not be served an earlier answer, and 8-32 goroutines reading a fresh shared config must each obtain the sequential result that UcfgVarExp predicts - also in a -race build."),
- "C18": ("loaders", "expected data fixed by the TLA+ normalisation spec (with / without separator); exhaustive bounded documents and random documents loaded through the three front-ends (in memory and from files) and compared with the spec and with each other; random loads trace-validated by TLC",
-         "The decoders are outside the specification; it generates the documents and fixes what all three must unpack to. Every document is rendered twice and loaded 24 ways; *WithFile loads must equal in-memory loads and an error about a setting must name the file (and no source for in-memory loads); random documents with YAML-1.1-hostile strings and boundary numbers are recorded and validated by Trace_Normalize."),
- "C07": ("robust", "totality of the specified transition functions checked by TLC (NoPanic invariants of the store machine and the value parser, deviations refuted) + exhaustive short parser strings + mutation/enumeration with runtime observers (recover, child processes with deadline, goroutine count, allocation bound)",
-         "Every transition function of the specification returns a value or Err for every argument (TLC: no 'panic' outcome on the Ideal layer, and the repaired panics are refuted); on the code the inputs the property quantifies over are enumerated or mutated and every call is observed: recovered panic, dead or hanging child process, leaked goroutine, list longer than MaxIdx+1. The decoders themselves are explored by mutation only (DESIGN.md section 8)."),
+ "C18": ("loaders", "expected data fixed by the TLA+ normalisation spec (with / without separator); exhaustive bounded documents and random documents loaded through the three front-ends (in memory and from files) and compared with the spec and with each other; random loads trace-validated by TLC; an error provoked about every setting of every document must name the file iff it was loaded from one",
+         "The decoders are outside the specification; it generates the documents and fixes what all three must unpack to. Every document is rendered twice and loaded 24 ways; *WithFile loads must equal in-memory loads and an error about a setting must name the file (and no source for in-memory loads); random documents with YAML-1.1-hostile strings and boundary numbers are recorded and validated by Trace_Normalize. For every setting of the loaded document (primitives, objects, lists, empty containers, list elements) a getter of the wrong kind provokes an error about exactly that setting."),
+ "C07": ("robust", "totality of the specified transition functions checked by TLC (NoPanic invariants of the store machine and the value parser, deviations refuted) + exhaustive short parser strings + mutation/enumeration with runtime observers (recover, child processes with deadline, goroutine count, allocation bound); store-machine transitions replayed with the full (name, idx) sweep; Gen_Targets (target type x validator x setting shape) replayed",
+         "Every transition function of the specification returns a value or Err for every argument (TLC: no 'panic' outcome on the Ideal layer, and the repaired panics are refuted); on the code the inputs the property quantifies over are enumerated or mutated and every call is observed: recovered panic, dead or hanging child process, leaked goroutine, list longer than MaxIdx+1. The decoders themselves are explored by mutation only (DESIGN.md section 8). The store universes (core, list churn) and random store sessions are replayed with every (name, idx) address read in every state; Gen_Targets enumerates 85 target types (every kind, pointers, slices, arrays, maps, custom unpackers, interface{}, chan/func/complex) x validators x setting shapes x zero/allocated/bare targets: Unpack must return (found KF-35..KF-37)."),
 }
 NOTE = "bounded universes (stated in evidence.rule); projection through the public API; TLC/JVM/Go runtime trusted; Ideal layer + named deviations listed in known_findings.json"
 
@@ -69,11 +69,15 @@ m = dict(
              kind_free_text="TLA+ interleaving model of concurrent reads with per-call cache; harness/cmd/ucfgconf/fam_readers.go + deephash.go; race build"),
         dict(name="reify", path="spec/UcfgReify.tla", serves_properties=["C04", "C13", "C14"],
              kind_free_text="TLA+ typed Unpack with validators, defaults, frame and error paths; Gen_Reify; harness/cmd/ucfgconf/fam_reify.go"),
-        dict(name="pack", path="spec/UcfgPack.tla", serves_properties=["C06"],
+        dict(name="faults", path="spec/UcfgFaults.tla", serves_properties=["C14"],
+             kind_free_text="TLA+ single-fault injection over the Pack type universe (Sites, FaultsFor, Inject); Gen_Faults; harness/cmd/ucfgconf/fam_faults.go"),
+        dict(name="targets", path="spec/Gen_Targets.tla", serves_properties=["C07"],
+             kind_free_text="TLA+ enumeration of target type x validator x setting shape (totality of Unpack); harness/cmd/ucfgconf/fam_targets.go"),
+        dict(name="pack", path="spec/UcfgPack.tla", serves_properties=["C06", "C14", "C07"],
              kind_free_text="TLA+ Pack/RoundTrip over type descriptors; Gen_Pack; harness/cmd/ucfgconf/fam_pack.go (reflect type builder)"),
         dict(name="conv", path="spec/UcfgConvert.tla", serves_properties=["C03"],
              kind_free_text="TLA+ decision table over named numeric boundaries; Gen_Convert/Trace_Convert; harness/cmd/ucfgconf/fam_conv.go (math/big concretisation)"),
-        dict(name="varexp", path="spec/UcfgVarExp.tla", serves_properties=["C02", "C08", "C11"],
+        dict(name="varexp", path="spec/UcfgVarExp.tla", serves_properties=["C02", "C08", "C09", "C11"],
              kind_free_text="TLA+ big-step evaluator of variable expansion + small-step UcfgVarExpSteps (liveness); Gen_VarExp; harness/cmd/ucfgconf/fam_varexp.go with crash-isolated child processes (isolate.go)"),
         dict(name="flags", path="spec/UcfgFlags.tla", serves_properties=["C19"],
              kind_free_text="TLA+ flag collector on top of UcfgParseValue+UcfgNormalize+UcfgMerge; Gen_Flags/Trace_Flags; harness/cmd/ucfgconf/fam_flags.go"),
@@ -83,7 +87,7 @@ m = dict(
              kind_free_text="TLA+ rule for list-index segments; Gen_Paths/Trace_Paths; harness/cmd/ucfgconf/fam_paths.go"),
         dict(name="norm", path="spec/UcfgNormalize.tla", serves_properties=["C05", "C09", "C18"],
              kind_free_text="TLA+ specification of Go-value normalisation (sequential and order-free definitions); MC_Normalize/Gen_Normalize/Trace_Normalize; harness/cmd/ucfgconf/fam_norm.go"),
-        dict(name="store", path="spec/UcfgStore.tla", serves_properties=["C10", "C12", "C15"],
+        dict(name="store", path="spec/UcfgStore.tla", serves_properties=["C07", "C10", "C12", "C15"],
              kind_free_text="TLA+ state machine of the Config heap (nodes, handles, one action per API call); MC_Store/Gen_Store/Trace_Store; harness/cmd/ucfgconf/fam_store.go"),
         dict(name="merge", path="spec/UcfgMerge.tla", serves_properties=["C01", "C16"],
              kind_free_text="TLA+ specification of merge policies and per-field policy tree; MC_/Gen_/Trace_ configs; Go replayer+driver harness/cmd/ucfgconf/fam_merge.go"),
